@@ -359,13 +359,43 @@ def check_hotspots(prog, rep, m):
                 'the kernel must be validated (ndarray, odd shape) before use')
 
 
+def check_dask_halos(prog, rep):
+    """the property is backend-neutral: on Dask rasters the window must reach across chunk borders, i.e. the halo of
+    every focal op covers its kernel footprint per axis (same rules as C01-H0/H1/H2/H2f, applied to the focal ops)."""
+    from . import C01
+    from ..sharedrules import FloatProv
+    from ..dasksites import sites_in
+    C01.FLOATPROV[0] = FloatProv(prog)
+    for modname, fname in (('focal', 'mean'), ('focal', 'apply'), ('focal', 'focal_stats'), ('focal', 'hotspots'),
+                           ('convolution', 'convolution_2d')):
+        pub = prog.module(modname).funcs.get(fname)
+        if pub is None:
+            raise AnalysisIncomplete('%s.%s not found' % (modname, fname))
+        disp = C01.find_dispatch(prog, pub)
+        if disp is None:
+            raise AnalysisIncomplete('%s: dispatch not found' % fname)
+        dfunc, paths = disp
+        f_np, _ = C01.path_target(prog, paths['numpy'])
+        f_da, _ = C01.path_target(prog, paths['dask'])
+        np_funcs = C01.dask_reachable(prog, f_np, 'numpy')
+        for g in C01.dask_reachable(prog, f_da, 'dask'):
+            if g.jit is not None:
+                continue
+            for site in sites_in(prog, g):
+                if site.kernel() is not None and not C01.is_gpu(site.kernel()) and not C01.is_gpu(site.scope):
+                    C01.check_site(prog, rep, '%s[dask]' % fname, site, np_funcs,
+                                   C01.SAME if fname != 'hotspots' else C01.PIPE)
+
+
 def check(prog, rep):
+    check_dask_halos(prog, rep)
     m = prog.module('focal')
     check_apply(prog, rep, m)
     check_mean(prog, rep, m)
     check_convolve(prog, rep)
     check_stats_table(prog, rep, m)
     check_hotspots(prog, rep, m)
+    rep.floor('H1', 10)
     rep.floor('F1', 6)
     rep.floor('F2', 6)
     rep.floor('F3', 3)
